@@ -166,6 +166,10 @@ const D = {
   nestedSingle:    { tpl: (i) => `__out.k${i} = () => <p><Comp>{\`n \${x}\`}</Comp></p>;`, jsx: true },
   attrBareJsx:     { tpl: (i) => `__out.k${i} = () => <Comp icon=<i/>>{xx}</Comp>;`, jsx: true },
   dirThenBareJsx:  { tpl: (i) => `__out.k${i} = () => <Comp v-foo={x} icon=<B /> />;`, jsx: true },
+  // the same without any arrow function of its own (a pending capture must not end up in somebody else's arrow)
+  selfAssignFnObs: { tpl: (i) => `var so${i} = x;\nso${i} = <Comp>{so${i}}</Comp>;\n__out.k${i} = function () { return so${i}; };`, jsx: true },
+  // needs the listener helper and nothing else from the runtime
+  onOnly:          { tpl: (i) => `__out.k${i} = () => <div on={{ click: h1 }} />;`, jsx: true },
   selfAssignArrowParam: { tpl: (i) => `const ap${i} = (p) => (p = <Comp>{p}</Comp>);\n__out.k${i} = () => ap${i}(x);`, jsx: true },
   selfAssignArrowLet: { tpl: (i) => `let sq${i} = x;\nconst aq${i} = () => (sq${i} = <B>{sq${i}}</B>);\n__out.k${i} = () => aq${i}();`, jsx: true },
   // `await` / `yield` of the enclosing function: fine among an element's children, not available inside a slot function
